@@ -85,6 +85,8 @@ type Contract struct {
 	Ghost      []string
 	Terminates bool
 	Bytes      bool // model bulk copies (append/copy of slices) with quantified content axioms
+	Only       []string // if set: the check owns only the obligations whose clause label is listed (the rest of the function is translated but not claimed)
+	StrBytes   bool // give string(b) and []byte(s) their content (quantified axioms linking characters and bytes)
 	After      []*AfterSpec
 	Calls      []string // function-typed parameters the callee may invoke (at most once)
 	Generics   [][2]string // type variable, parameter it is taken from
@@ -154,7 +156,7 @@ var labelRe = regexp.MustCompile(`^\[([A-Za-z0-9_.:\-]+)\]\s*`)
 
 var clauseKW = map[string]bool{"props": true, "requires": true, "ensures": true, "assigns": true, "canary": true,
 	"loop": true, "decreases": true, "nooverflow": true, "assumed": true, "inline": true, "let": true, "panics_ok": true,
-	"params": true, "frame_only": true, "nonblocking": true, "use": true, "ghost": true, "terminates": true, "bytes": true, "split": true, "uses": true, "after": true, "calls": true,
+	"params": true, "frame_only": true, "nonblocking": true, "use": true, "ghost": true, "terminates": true, "bytes": true, "strbytes": true, "only": true, "split": true, "uses": true, "after": true, "calls": true,
 	"maxalloc": true, "allocates": true, "generic": true, "callarg": true, "witness": true}
 
 // FnName: the SSA name of the function the contract is about (the variant suffix removed).
@@ -415,6 +417,10 @@ func (c *Contract) addClause(kw, text string, line int) error {
 		c.Terminates = true
 	case "bytes":
 		c.Bytes = true
+	case "strbytes":
+		c.StrBytes = true
+	case "only":
+		c.Only = append(c.Only, strings.Fields(strings.ReplaceAll(text, ",", " "))...)
 	case "params":
 		c.Params = strings.Fields(strings.ReplaceAll(text, ",", " "))
 	case "ghost":
